@@ -55,6 +55,16 @@ CHECKS = {
     text="TLC enumerates unit enums and adjacently tagged enums whose variant under test ranges over identifier shape (single letter, word, camel, digit, acronym run, all caps), per-variant serde(rename) (none, plain, dashed), payload (unit, newtype, struct), the 8 rename_all rules + none, several tag/content key pairs, and plain / self-recursive / generic enums, next to fixed neighbours; P gives the wire string of every variant and the tag and content keys. The 6 backends' outputs are read back: the wire string of every case (all places it is written), every occurrence of the tag key (TypeScript shape, Swift ContainerCodingKeys and each forKey:, Go struct tags of carrier/Unmarshal/Marshal, Python tag fields) and of the content key; Kotlin and Scala are judged on names and content key only. Random enums of 1..6 dictionary-named variants with mixed payloads are judged by TLC as trace events (exactly one case per variant, each wire equal, every key occurrence equal).",
     note="Trusted: TLC; SerdeCase.tla; extractors (which fold each backend's enum encoding into one definition and raise on internally inconsistent encoders). Backends that refuse a case (generic enums in Go) are skipped for that case.",
     design_ref="6/C02"),
+ "C04": dict(
+    technique="TLA+ spec of optionality (SerdeAttrs!Optional over TypeExpr!IsOpt); TLC enumerates wrapping shape x payload type x serde(default) spelling with the required marker; every case generated at 4 positions in 6 languages; the observed marker and the type under it (compared with the same backend's rendering of the plain type) judged by TLC (Trace_C04.tla)",
+    text="TLC enumerates the wrapping shape (T, Option<T>, Option<Option<T>>, Box<Option<T>>, Option<Box<T>>, Arc<Option<Option<T>>>, &Option<T>, Vec<Option<T>>) x T (primitives, containers, user type, generic parameter, unit, generic instance) x the spelling of serde(default) (absent, bare, merged with rename, separate attribute, after other attributes, and the non-bare `default = \"path\"`), and prints whether P requires the optional marker. Each case is generated as struct field, struct-variant field, newtype payload and alias in all 6 languages. The extractors report the language idiom (TS `?`, Kotlin `? = null`, Swift `?`, Scala Option[..] = None, Go omitempty / pointer payload, Python Optional with default None / nullable payload); TLC checks per event: marker present iff required, the type under the marker equals what the same backend prints for the plain core type (so the marker changed nothing), and TypeScript struct fields keep Option<Option<T>> as `?` plus `| null`. Random trees with random spellings extend the enumeration.",
+    note="Trusted: TLC; extractors' reading of each language's optional idiom. Only the bare `default` counts, as the property says. Known finding: Scala prints `= _` for default on a non-Option field (snapshot-pinned).",
+    design_ref="6/C04"),
+ "C05": dict(
+    technique="TLA+ spec of structural type translation with a primitive category/capacity table and mappings (TypeExpr.tla); TLC enumerates all type expressions to depth 2/3 and checks structural theorems of the spec; every tree generated at 4 positions in 6 languages under 3 configurations; every observed target type tree judged by TLC (Trace_C05.tla)",
+    text="TLC enumerates every Rust type expression up to depth 2 (quick, 1.4k trees) / 3 (thorough) over primitives, user types and generic parameters closed under Vec, [T;N], &[T], Option, HashMap (String/u32/user keys), Box/Arc, references, path qualification and generic instances, and checks on each that references and all 11 smart pointers disappear, that the three sequence forms coincide and that Option survives pointers. Each tree is placed as struct field, struct-variant field, newtype payload and alias target and generated in 6 languages: without mapping, with a type mapping User->MappedT, and (Swift/Kotlin) with a prefix. The observed target type tree of every position is judged by TypeExpr!Conf: same constructor structure at every depth, generic arguments and parameters in order, parameters never prefixed, user types prefixed, mapped types replaced everywhere without arguments, and every primitive leaf of the same JSON category with capacity for all values (table TargetPrim; Scala's unsigned aliases are resolved through the aliases the file defines). Random trees of depth 4-5 over all 15 primitives and 8 smart pointers extend the enumeration.",
+    note="Trusted: TLC; extractors' type parsers; the TargetPrim table (Go int = 32 bits; Swift Unicode.Scalar counted as string-like). Known findings: TypeScript loses Option nested in containers / double options outside struct fields; Scala unsigned aliases are signed (ULong = Int); Go char -> rune. Container-instance mappings (\"Vec<u8>\") are not exercised yet.",
+    design_ref="6/C05"),
 }
 
 NOT_YET = "not built yet in this round (planned: see DESIGN.md section 6); no check is registered, nothing is claimed"
